@@ -718,6 +718,28 @@ let serde_case (line : string) : string =
 
 (* ---- domain conn (C06, C07) ---- *)
 let split_on (sep : string) (s : string) : string list = Str.split_delim (Str.regexp_string sep) s
+(* ---- domain hsk: Connection::connect against a scripted peer (C04 over the socket) ---- *)
+let hsk_case (line : string) : string =
+  match split_on " ;; " line with
+  | [] -> failwith "empty"
+  | head :: actions ->
+      (match words head with
+       | ["hsk"; nm; ck; fl; cr; gen] ->
+           let c = { h_name = bytes_of_hex nm; h_cookie = bytes_of_hex ck; h_flags = n_of_dec fl; h_creation = n_of_dec cr } in
+           let closed = List.mem "X" actions in
+           let rec upto = function [] -> [] | "X" :: _ -> [] | a :: r -> a :: upto r in
+           let cs = List.filter_map (fun a -> if String.length a > 0 && a.[0] = 'W' then Some (Data (bytes_of_hex (String.sub a 1 (String.length a - 1)))) else None) (upto actions) in
+           let r = connect md5 c (n_of_dec gen) cs in
+           let res = (match r.c_err with
+             | None -> "ok"
+             | Some (CHs e) -> "e:" ^ herr_str e
+             | Some CEof -> if closed then "eof" else "timeout"
+             | Some CTooLarge -> "toolarge") in
+           let ok = r.c_err = None in
+           Printf.sprintf "res=%s state=%s connected=%d send=%s after=%s slow=0 wrote=%s" res (hstate_str r.c_hs.st) (if ok then 1 else 0)
+             (if ok then "ok" else "err state") (if ok then "some" else "0") (hex_of_bytes r.c_wrote)
+       | _ -> failwith "bad hsk head")
+
 let pid_of_term = function TPid p -> p | _ -> failwith "pid expected"
 let rd_sop (t : toks) : sop =
   match next t with
@@ -952,6 +974,7 @@ let () =
     | "ord" -> ord_case
     | "control" -> control_case
     | "handshake" -> handshake_case
+    | "hsk" -> hsk_case
     | "elixir" -> elixir_case
     | "serde" -> serde_case
     | "conn" -> conn_case
